@@ -748,7 +748,7 @@ func init() {
 				c.Outcome("skipped")
 				return
 			}
-			n := len(c18Sers)
+			n := len(c18Sers) + len(c18Large)
 			type res struct {
 				i      int
 				out    string
@@ -818,16 +818,48 @@ func init() {
 		},
 	}
 
+	largeH := &mc.Harness{
+		Name:      "C18/large-inputs",
+		NoConfirm: true,
+		Mode:      "repeated calls on large shared inputs and on freshly built copies",
+		Run: func(c *mc.Ctx) {
+			l := c18Large[c.Free(len(c18Large), "call")]
+			var base []byte
+			for rep := 0; rep < 4; rep++ {
+				var w *c18World
+				if rep != 3 {
+					c18Init()
+					w = c18W // shared input; rep 3: a freshly built copy (nil world)
+				}
+				var buf bytes.Buffer
+				err := l.run(w, &buf)
+				c.Transitions(1)
+				if rep == 0 {
+					base = append([]byte{}, buf.Bytes()...)
+				}
+				if err != nil || !bytes.Equal(buf.Bytes(), base) {
+					c.Outcome("DIFFERENT BYTES")
+					c.Fail("C18/large:"+l.name, "repeated calls on the same logical input produced different bytes", fmt.Sprintf("%s, call %d (3 = fresh copy of the input)", l.name, rep), hx(base), fmt.Sprintf("%s err=%v", hx(buf.Bytes()), err))
+					return
+				}
+			}
+			c.Eval()
+			c.State([]byte(l.name))
+			c.Nontrivial([]byte(l.name))
+			c.Outcome("same bytes on 4 calls")
+		},
+	}
+
 	register(&mc.Property{
 		ID:    "C18",
 		Level: "model_checking",
-		Rule:  "four parts. permutations: 12 serializer inputs (3 of them header maps holding one name under several case spellings, where a refusal must be the same refusal every time) x maps of 1..4 entries x every insertion permutation x 6 repeated calls, all bytes equal to the identity-order baseline. histories: every sequence of <=2 (quick) / <=3 (thorough) operations from 18 serializer calls + 4 input mutations + 25 calls whose destination fails at a chosen Write, on one shared world; each output = the same call on a freshly built world in the same logical state, input memory (incl. spare capacity) unchanged, earlier returned slices unchanged. schedules: every unordered pair of the 18 serializer calls as 2 logical threads (thorough: plus every ascending triple of 8 core calls as 3 threads, and every 2-call thread against a 1-call thread over those 8) on shared inputs, ALL interleavings at hooked operations (verifhook.Point sites, every Write of the harness-owned writer) with at most 2 preemptions; each thread's bytes = its solo bytes. races (auxiliary): every ordered pair as free-running goroutines in a -race build. Non-trivial = >=2 map entries / non-empty history / a complete schedule; distinct by (scenario, vector).",
+		Rule:  "four parts. permutations: 12 serializer inputs (3 of them header maps holding one name under several case spellings, where a refusal must be the same refusal every time) x maps of 1..4 entries x every insertion permutation x 6 repeated calls, all bytes equal to the identity-order baseline. histories: every sequence of <=2 (quick) / <=3 (thorough) operations from 18 serializer calls + 4 input mutations + 25 calls whose destination fails at a chosen Write, on one shared world; each output = the same call on a freshly built world in the same logical state, input memory (incl. spare capacity) unchanged, earlier returned slices unchanged. schedules: every unordered pair of the 18 serializer calls as 2 logical threads (thorough: plus every ascending triple of 8 core calls as 3 threads, and every 2-call thread against a 1-call thread over those 8) on shared inputs, ALL interleavings at hooked operations (verifhook.Point sites, every Write of the harness-owned writer) with at most 2 preemptions; each thread's bytes = its solo bytes. large-inputs: 3 calls on inputs that reach size-dependent paths (bundle of 80 exchanges with different header blocks, 100 KiB MI payload, 70-entry map), 3 repeated calls on the shared input + 1 on a fresh copy. races (auxiliary): every ordered pair as free-running goroutines in a -race build, and each large-input call against itself. Non-trivial = >=2 map entries / non-empty history / a complete schedule; distinct by (scenario, vector).",
 		Assumptions: []string{
 			"Go map iteration order is runtime-internal and not behind a seam: order-independence is decided by enumerating every insertion permutation (small maps iterate as rotations of insertion order) with repeated calls, not by controlling the iteration",
 			"the cooperative scheduler explores interleavings at hooked operations only; unsynchronised accesses between hooks are the race detector's job (separate free-running -race pass, auxiliary evidence, not model checking)",
 			"ECDSA signature bytes are excluded: signing uses the repository's deterministic MockSigningAlgorithm",
 		},
-		Harnesses: []*mc.Harness{permH, histH, schedH, raceH},
+		Harnesses: []*mc.Harness{permH, histH, largeH, schedH, raceH},
 		Guard: func(s map[string]*mc.Stats) error {
 			if s["C18/schedules"].Executions < 1000 {
 				return errors.New("schedule exploration too small")
@@ -902,10 +934,83 @@ func c18RaceFuncs(block []string) string {
 	return strings.Join(out, ",")
 }
 
+// c18Large are serializer calls on inputs large enough to reach size-dependent code paths (a bundle of 80
+// exchanges with pairwise different header blocks, a 100 KiB MI payload in 25 records, a map of 70 entries).
+// They are too long for the schedule explorer; they run in C18/large-inputs (repeated calls on one shared
+// input and on a freshly built copy must give the same bytes) and, two goroutines per call, in the -race pass.
+var (
+	c18LargeOnce   sync.Once
+	c18LargeBundle *bundle.Bundle
+	c18LargeData   []byte
+)
+
+func c18BuildLargeBundle() *bundle.Bundle {
+	b := &bundle.Bundle{Version: bversion.VersionB2, PrimaryURL: c18MustURL("https://a.test/large/0")}
+	for i := 0; i < 80; i++ {
+		h := http.Header{"Content-Type": {"text/plain"}, "X-Index": {strconv.Itoa(i)}}
+		b.Exchanges = append(b.Exchanges, &bundle.Exchange{Request: bundle.Request{URL: c18MustURL("https://a.test/large/" + strconv.Itoa(i))},
+			Response: bundle.Response{Status: 200 + i%5, Header: h, Body: []byte{byte(i), 'x'}}})
+	}
+	return b
+}
+
+func c18LargeInit() {
+	c18LargeOnce.Do(func() {
+		c18LargeBundle = c18BuildLargeBundle()
+		c18LargeData = pattern(100<<10, 18)
+	})
+}
+
+var c18Large = []c18Ser{
+	{"Bundle.WriteTo(b2, 80 exchanges with different headers)", func(w *c18World, out io.Writer) error {
+		c18LargeInit()
+		b := c18LargeBundle
+		if w == nil {
+			b = c18BuildLargeBundle() // fresh copy of the same logical input
+		}
+		_, err := b.WriteTo(out)
+		return err
+	}},
+	{"mice.Encode(draft03, 100 KiB, record size 4096)", func(w *c18World, out io.Writer) error {
+		c18LargeInit()
+		d, err := mice.Draft03Encoding.Encode(out, c18LargeData, 4096)
+		return c18WriteBytes(out, []byte(d), err)
+	}},
+	{"cbor.EncodeMap(70 entries)", func(w *c18World, out io.Writer) error {
+		var mes []*cbor.MapEntryEncoder
+		for i := 69; i >= 0; i-- {
+			i := i
+			mes = append(mes, cbor.GenerateMapEntry(func(k, v *cbor.Encoder) {
+				k.EncodeTextString("key-" + strconv.Itoa(i*7919%70))
+				v.EncodeUint(uint64(i))
+			}))
+		}
+		return cbor.NewEncoder(out).EncodeMap(mes)
+	}},
+}
+
 // c18RaceMain is the body of `harness race <i>` in the -race build: serializer i
 // against every serializer j as free-running goroutines.
 func c18RaceMain(i int) {
 	c18Init()
+	if i >= len(c18Sers) {
+		// a large-input call against itself (two free-running goroutines on the shared input)
+		l := c18Large[i-len(c18Sers)]
+		fmt.Fprintf(os.Stderr, "PAIR %d %d %s | %s\n", i, i, l.name, l.name)
+		var wg sync.WaitGroup
+		for g := 0; g < 2; g++ {
+			wg.Add(1)
+			go func() {
+				defer wg.Done()
+				for rep := 0; rep < 5; rep++ {
+					var buf bytes.Buffer
+					l.run(c18W, &buf)
+				}
+			}()
+		}
+		wg.Wait()
+		return
+	}
 	for j := range c18Sers {
 		fmt.Fprintf(os.Stderr, "PAIR %d %d %s | %s\n", i, j, c18Sers[i].name, c18Sers[j].name)
 		var wg sync.WaitGroup
